@@ -1,8 +1,9 @@
 (* C03 - No well-conditioned curve-curve intersection is missed or duplicated (partial: what pruning and
    bookkeeping can never do wrong; convergence of the subdivision/Newton pipeline is swept, not proved). Statements only. *)
-From Coq Require Import List ZArith QArith Bool String Reals.
+From Coq Require Import List ZArith QArith Bool String Reals Qreals.
 From BZ Require Import Base.Ops Base.RInst Base.PyVal Model.Curve Model.Intersect Gen.PyFnHelpers Gen.PyFnGeometric Gen.PyFnIntersect
-  Gen.PyIntersectionHelpers Theory.CurveEvalExtra Theory.Predicates Theory.IntersectFlow Theory.IntersectPrune Theory.IntersectPruneR.
+  Gen.PyIntersectionHelpers Theory.CurveEvalExtra Theory.Predicates Theory.IntersectFlow Theory.IntersectPrune Theory.IntersectPruneR
+  Theory.LocateTheory Theory.RoundTheory.
 Import ListNotations.
 
 (* curves whose control-point boxes are disjoint have no common point: the empty answer is right, every degree *)
@@ -44,3 +45,33 @@ Theorem C03_exact_repeat_is_merged : forall s t ints,
   In (s, t) ints -> (0 < s)%Q -> (0 < t)%Q -> add_intersection s t ints = ints.
 Proof. exact add_intersection_merges_equal. Qed.
 Print Assumptions C03_exact_repeat_is_merged.
+
+(* ---- the subdivision stage never drops a common point (exact arithmetic, every degree) ----
+   A candidate pair covers a common point B1(s) = B2(t) when its members are the restrictions of the original curves to
+   parameter intervals containing s and t (Restr).  The initial pair covers every common point; a covering pair is never
+   classified DISJOINT by the REGENERATED bbox_intersect; and one of its four pairs of halves covers the point again.
+   (A Linearization with non-zero error replaces the curve by its chord: outside this statement, as are the end-games.) *)
+Theorem C03_initial_pair_covers : forall ox oy : list R,
+  (2 <= List.length ox)%nat -> (2 <= List.length oy)%nat -> Restr ox oy ox oy 0%R 1%R.
+Proof. exact Restr_initial. Qed.
+Print Assumptions C03_initial_pair_covers.
+Theorem C03_covering_pair_is_never_classified_disjoint :
+  forall (o1x o1y o2x o2y : list R) (x10 : Q) (x1 : list Q) (y10 : Q) (y1 : list Q) (x20 : Q) (x2 : list Q) (y20 : Q) (y2 : list Q)
+         (a1 b1 a2 b2 s t : R),
+  Restr o1x o1y (map Q2R (x10 :: x1)) (map Q2R (y10 :: y1)) a1 b1 ->
+  Restr o2x o2y (map Q2R (x20 :: x2)) (map Q2R (y20 :: y2)) a2 b2 ->
+  (a1 <= s <= b1)%R -> (a2 <= t <= b2)%R -> B o1x s = B o2x t -> B o1y s = B o2y t ->
+  py_bbox_intersect (vq_mat [x10 :: x1; y10 :: y1]) (vq_mat [x20 :: x2; y20 :: y2]) <> VEnum "DISJOINT".
+Proof. exact covering_pair_is_not_classified_disjoint. Qed.
+Print Assumptions C03_covering_pair_is_never_classified_disjoint.
+Theorem C03_covering_pair_has_a_covering_child :
+  forall (o1x o1y o2x o2y c1x c1y c2x c2y : list R) (a1 b1 a2 b2 s t : R),
+  Restr o1x o1y c1x c1y a1 b1 -> Restr o2x o2y c2x c2y a2 b2 -> (a1 <= s <= b1)%R -> (a2 <= t <= b2)%R ->
+  exists c1x' c1y' a1' b1' c2x' c2y' a2' b2',
+    In (c1x', c1y', a1', b1') [(subdivide_left ROps c1x, subdivide_left ROps c1y, a1, ((a1 + b1) / 2)%R);
+                               (subdivide_right ROps c1x, subdivide_right ROps c1y, ((a1 + b1) / 2)%R, b1)] /\
+    In (c2x', c2y', a2', b2') [(subdivide_left ROps c2x, subdivide_left ROps c2y, a2, ((a2 + b2) / 2)%R);
+                               (subdivide_right ROps c2x, subdivide_right ROps c2y, ((a2 + b2) / 2)%R, b2)] /\
+    Restr o1x o1y c1x' c1y' a1' b1' /\ Restr o2x o2y c2x' c2y' a2' b2' /\ (a1' <= s <= b1')%R /\ (a2' <= t <= b2')%R.
+Proof. exact covering_pair_has_a_covering_child. Qed.
+Print Assumptions C03_covering_pair_has_a_covering_child.
